@@ -395,9 +395,12 @@ def Db.lookup (db : Db) (now : Int) (s : Str) : Lookup :=
     | some u => .found u
     | none => .missing
 
-/-- the `try:` block of `checkCapability`: the recognised user, with the `secure` re-check
+/-- the `try:` block of `checkCapability`: a string that is not a user hostmask is unknown; else the
+recognised user, with the `secure` re-check
 (`u.secure and not u.checkHostmask(hostmask, useAuth=False)` ⇒ unknown) -/
 def Db.recognise (db : Db) (now : Int) (h : Str) : Option User :=
+  -- a prefix that is not nick!user@host (server, service, bare nick) is nobody: not an account *name*
+  if !isUserHostmask h then none else
   match db.lookup now h with
   | .found u => if u.secure && !u.checkHostmask db.timeout now h false then none else some u
   | .missing => none
